@@ -109,6 +109,10 @@ func NewSession(id uint16, clientMAC, serverMAC net.HardwareAddr) (*Session, err
 		return nil, fmt.Errorf("failed to generate session ID: %w", err)
 	}
 
+	// Keep our own copy of the address: callers pass a slice of the receive
+	// buffer, which the next frame overwrites
+	clientMAC = append(net.HardwareAddr(nil), clientMAC...)
+
 	return &Session{
 		ID:           id,
 		ClientMAC:    clientMAC,
